@@ -182,3 +182,454 @@ pub proof fn lemma_exact_whole(fp: FilePatch<&[u8]>, pre: ModifiedFile, d: Patch
             !any_failed && reports[0] is Applied && content.len() == 0 && (target_is_devnull(fp, d) ==> deleted),
 {
 }
+
+// ---------------------------------------------------------------- C01, the -R half
+
+/// the reports a forward application of a diff produces: stated line, offset 0, fuzz 0, rollback line = where the
+/// view starts in the result
+#[verifier::opaque]
+pub open spec fn produced_reports(x: Seq<Seq<u8>>, hs: Seq<Hunk<&[u8]>>, d: PatchDirection) -> Seq<HunkApplyReport> {
+    let st = Seq::new(hs.len(), |i: int| stated_report(hs[i], d));
+    Seq::new(hs.len(), |i: int| with_rollback_line(st[i], sp_moff(x, hs, d, st, i)))
+}
+
+/// the "+" line numbers of the headers are where the new sides really land (true of every diff: both columns of a
+/// hunk header are computed from the same alignment)
+#[verifier::opaque]
+pub open spec fn header_consistent(x: Seq<Seq<u8>>, hs: Seq<Hunk<&[u8]>>, d: PatchDirection) -> bool {
+    forall|i: int| 0 <= i < hs.len() ==> new_start(#[trigger] hs[i], d) == produced_reports(x, hs, d)[i]->rollback_line
+}
+
+pub proof fn lemma_produced_norm(x: Seq<Seq<u8>>, hs: Seq<Hunk<&[u8]>>, d: PatchDirection, i: int)
+    requires 0 <= i < hs.len()
+    ensures
+        produced_reports(x, hs, d).len() == hs.len(),
+        norm(produced_reports(x, hs, d)[i]) == stated_report(hs[i], d),
+        produced_reports(x, hs, d)[i] is Applied,
+        produced_reports(x, hs, d)[i] == with_rollback_line(stated_report(hs[i], d), sp_moff(x, hs, d, stated_seq(hs, d), i)),
+{
+    reveal(produced_reports);
+    assert(stated_seq(hs, d) =~= Seq::new(hs.len(), |k: int| stated_report(hs[k], d)));
+}
+
+pub proof fn lemma_produced_len(x: Seq<Seq<u8>>, hs: Seq<Hunk<&[u8]>>, d: PatchDirection)
+    ensures produced_reports(x, hs, d).len() == hs.len(), stated_seq(hs, d).len() == hs.len()
+{
+    reveal(produced_reports);
+}
+
+pub proof fn lemma_header_at(x: Seq<Seq<u8>>, hs: Seq<Hunk<&[u8]>>, d: PatchDirection, i: int)
+    requires header_consistent(x, hs, d), 0 <= i < hs.len()
+    ensures new_start(hs[i], d) == produced_reports(x, hs, d)[i]->rollback_line
+{
+    reveal(header_consistent);
+    let _ = hs[i];
+}
+
+/// machine side conditions (all lines are slices of texts held in memory)
+pub open spec fn sizes_ok(x: Seq<Seq<u8>>, hs: Seq<Hunk<&[u8]>>) -> bool {
+    x.len() < BIG() && hs.len() < BIG() && hunks_total(hs, hs.len() as int) < BIG()
+}
+
+/// threaded frozen line / emitted-prefix position for the reports a diff produces
+pub proof fn lemma_produced_frozen(x: Seq<Seq<u8>>, hs: Seq<Hunk<&[u8]>>, d: PatchDirection, n: int)
+    requires diff_script(x, hs, d), 0 <= n <= hs.len()
+    ensures st_frozen(hs, d, produced_reports(x, hs, d), n) == exact_frozen(hs, d, n)
+    decreases n
+{
+    if n > 0 {
+        lemma_produced_frozen(x, hs, d, n - 1);
+        lemma_diff_script_at(x, hs, d, n - 1);
+        lemma_produced_norm(x, hs, d, n - 1);
+        lemma_state_after_stated(hs, d, produced_reports(x, hs, d), n - 1);
+    }
+}
+
+/// what diff_script says about the changed region of hunk i in x
+pub proof fn lemma_diff_core_at(x: Seq<Seq<u8>>, hs: Seq<Hunk<&[u8]>>, d: PatchDirection, i: int)
+    requires diff_script(x, hs, d), 0 <= i < hs.len()
+    ensures
+        ({
+            let r = produced_reports(x, hs, d)[i];
+            let cs = rep_core_start(hs[i], r);
+            let ce = rep_core_end(hs[i], d, r);
+            &&& cs == old_start(hs[i], d) + hs[i].prefix_context
+            &&& ce == old_start(hs[i], d) + old_side(hs[i], d).len() - hs[i].suffix_context
+            &&& sp_pos(hs, d, produced_reports(x, hs, d), i) <= cs <= ce <= x.len()
+            &&& 0 <= old_start(hs[i], d) && old_start(hs[i], d) + old_side(hs[i], d).len() <= x.len()
+            &&& x.subrange(cs, ce) == deep(v_old_core(hs[i], d, 0))
+            &&& i > 0 ==> sp_pos(hs, d, produced_reports(x, hs, d), i) <= old_start(hs[i], d)
+        }),
+{
+    lemma_diff_script_at(x, hs, d, i);
+    lemma_produced_norm(x, hs, d, i);
+    lemma_produced_frozen(x, hs, d, i);
+    lemma_view_fuzz0(hs[i], d);
+    let h = hs[i];
+    let p = old_start(h, d);
+    let o = deep(old_side(h, d));
+    let pc = h.prefix_context as int;
+    let sc = h.suffix_context as int;
+    assert(x.subrange(p, p + o.len()).subrange(pc, o.len() - sc) =~= x.subrange(p + pc, p + o.len() - sc));
+    assert(o.subrange(pc, o.len() - sc) =~= deep(v_old_core(h, d, 0)));
+    if i > 0 {
+        reveal(diff_script);
+        let _ = hs[i - 1];
+    }
+}
+
+pub proof fn lemma_diff_applied_state(x: Seq<Seq<u8>>, hs: Seq<Hunk<&[u8]>>, d: PatchDirection)
+    requires diff_script(x, hs, d), sizes_ok(x, hs)
+    ensures
+        applied_state(x, hs, d, produced_reports(x, hs, d)),
+        cores_match(x, hs, d, produced_reports(x, hs, d), hs.len() as int),
+{
+    reveal(applied_state);
+    reveal(cores_match);
+    let reps = produced_reports(x, hs, d);
+    let n = hs.len() as int;
+    lemma_produced_len(x, hs, d);
+    assert(hunks_wf(hs)) by { reveal(diff_script); }
+    assert forall|i: int| 0 <= i < n && (#[trigger] reps[i]) is Applied implies {
+        &&& sp_pos(hs, d, reps, i) <= rep_core_start(hs[i], reps[i])
+        &&& rep_core_start(hs[i], reps[i]) <= rep_core_end(hs[i], d, reps[i])
+        &&& rep_core_end(hs[i], d, reps[i]) <= x.len()
+        &&& norm(reps[i]) == applied_report(hs[i], d, reps[i]->fuzz as int, reps[i]->line as int)
+        &&& -BIG() < reps[i]->line < BIG()
+        &&& x.subrange(rep_core_start(hs[i], reps[i]), rep_core_end(hs[i], d, reps[i])) == deep(v_old_core(hs[i], d, reps[i]->fuzz as int))
+    } by {
+        lemma_diff_core_at(x, hs, d, i);
+        lemma_produced_norm(x, hs, d, i);
+    }
+    assert forall|i: int| 0 <= i < n && (#[trigger] reps[i]) is Applied implies
+        reps[i]->rollback_line == reps[i]->line + sp_moff(x, hs, d, reps, i) by {
+        lemma_diff_core_at(x, hs, d, i);
+        lemma_produced_moff(x, hs, d, i);
+    }
+}
+
+/// sp_moff of the produced reports equals sp_moff of the stated ones (it depends on line and fuzz only), and the
+/// recorded rollback line is the stated line plus it (no truncation: both are far inside the machine range)
+pub proof fn lemma_produced_moff(x: Seq<Seq<u8>>, hs: Seq<Hunk<&[u8]>>, d: PatchDirection, i: int)
+    requires diff_script(x, hs, d), sizes_ok(x, hs), 0 <= i < hs.len()
+    ensures
+        ({
+            let st = stated_seq(hs, d);
+            let reps = produced_reports(x, hs, d);
+            &&& sp_moff(x, hs, d, reps, i) == sp_moff(x, hs, d, st, i)
+            &&& reps[i]->rollback_line == reps[i]->line + sp_moff(x, hs, d, reps, i)
+            &&& -BIG() < sp_moff(x, hs, d, reps, i) < BIG()
+        }),
+{
+    let st = stated_seq(hs, d);
+    let reps = produced_reports(x, hs, d);
+    lemma_produced_len(x, hs, d);
+    assert forall|m: int| 0 <= m < i implies norm(#[trigger] reps[m]) == norm(st[m]) by { lemma_produced_norm(x, hs, d, m); }
+    lemma_norm_state(x, hs, d, reps, st, i);
+    lemma_produced_norm(x, hs, d, i);
+    // bounds of the shift: the emitted prefix is at most the consumed lines plus what the hunks add
+    assert(hunks_wf(hs)) by { reveal(diff_script); }
+    lemma_produced_cores_prefix(x, hs, d, i);
+    lemma_out_len(x, hs, d, reps, i);
+    lemma_total_mono(hs, i, hs.len() as int);
+    lemma_diff_script_at(x, hs, d, i);
+}
+
+pub proof fn lemma_produced_cores_prefix(x: Seq<Seq<u8>>, hs: Seq<Hunk<&[u8]>>, d: PatchDirection, n: int)
+    requires diff_script(x, hs, d), 0 <= n <= hs.len()
+    ensures cores_ordered(x.len() as int, hs, d, produced_reports(x, hs, d), n)
+{
+    let reps = produced_reports(x, hs, d);
+    assert forall|i: int| 0 <= i < n && (#[trigger] reps[i]) is Applied implies {
+        &&& sp_pos(hs, d, reps, i) <= rep_core_start(hs[i], reps[i])
+        &&& rep_core_start(hs[i], reps[i]) <= rep_core_end(hs[i], d, reps[i])
+        &&& rep_core_end(hs[i], d, reps[i]) <= x.len() } by {
+        lemma_diff_core_at(x, hs, d, i);
+    }
+}
+
+pub open spec fn stated_seq(hs: Seq<Hunk<&[u8]>>, d: PatchDirection) -> Seq<HunkApplyReport> {
+    Seq::new(hs.len(), |i: int| stated_report(hs[i], d))
+}
+pub open spec fn diff_result(x: Seq<Seq<u8>>, hs: Seq<Hunk<&[u8]>>, d: PatchDirection) -> Seq<Seq<u8>> {
+    splice_spec(x, hs, d, produced_reports(x, hs, d))
+}
+
+/// C01, -R, content: splicing the same hunks back in the opposite direction at their stated "+" lines restores x
+pub proof fn lemma_round_trip_content(x: Seq<Seq<u8>>, hs: Seq<Hunk<&[u8]>>, d: PatchDirection)
+    requires diff_script(x, hs, d), sizes_ok(x, hs), header_consistent(x, hs, d)
+    ensures splice_spec(diff_result(x, hs, d), hs, opp(d), stated_seq(hs, opp(d))) == x
+{
+    let reps = produced_reports(x, hs, d);
+    let und = stated_seq(hs, opp(d));
+    lemma_diff_applied_state(x, hs, d);
+    lemma_produced_len(x, hs, d);
+    assert(undo_like(hs, d, reps, und)) by {
+        reveal(undo_like);
+        assert forall|i: int| 0 <= i < reps.len() implies norm(#[trigger] und[i]) == undo_report(hs[i], d, reps[i]) by {
+            lemma_produced_norm(x, hs, d, i);
+            lemma_header_at(x, hs, d, i);
+        }
+    }
+    lemma_undo_modify(x, hs, d, reps, und);
+}
+
+/// where the view of hunk i starts in the result, and how the shift grows
+pub proof fn lemma_new_start_at(x: Seq<Seq<u8>>, hs: Seq<Hunk<&[u8]>>, d: PatchDirection, i: int)
+    requires diff_script(x, hs, d), sizes_ok(x, hs), header_consistent(x, hs, d), 0 <= i < hs.len()
+    ensures
+        ({
+            let reps = produced_reports(x, hs, d);
+            let q = new_start(hs[i], d);
+            let oi = sp_out(x, hs, d, reps, i).len() as int;
+            let pos = sp_pos(hs, d, reps, i);
+            &&& q == old_start(hs[i], d) + sp_moff(x, hs, d, reps, i)
+            &&& q == oi + (old_start(hs[i], d) - pos)
+            &&& sp_moff(x, hs, d, reps, i + 1) == sp_moff(x, hs, d, reps, i) + new_side(hs[i], d).len() - old_side(hs[i], d).len()
+            &&& sp_out(x, hs, d, reps, i + 1).len() == q + new_side(hs[i], d).len() - hs[i].suffix_context
+        }),
+{
+    let reps = produced_reports(x, hs, d);
+    lemma_produced_norm(x, hs, d, i);
+    lemma_produced_moff(x, hs, d, i);
+    lemma_header_at(x, hs, d, i);
+    lemma_diff_core_at(x, hs, d, i);
+    lemma_diff_script_at(x, hs, d, i);
+    lemma_view_fuzz0(hs[i], d);
+    assert(hunk_wf(hs[i]));
+    assert(sp_pos(hs, d, reps, i + 1) == rep_core_end(hs[i], d, reps[i]));
+}
+
+/// context lines of a well-formed hunk are the same bytes on both sides
+pub proof fn lemma_hunk_contexts(h: Hunk<&[u8]>, d: PatchDirection)
+    requires hunk_wf(h)
+    ensures
+        ({
+            let nw = deep(new_side(h, d));
+            let ol = deep(old_side(h, d));
+            let pc = h.prefix_context as int;
+            let sc = h.suffix_context as int;
+            &&& pc + sc <= nw.len() && pc + sc <= ol.len()
+            &&& nw.subrange(0, pc) == ol.subrange(0, pc)
+            &&& nw.subrange(nw.len() - sc, nw.len() as int) == ol.subrange(ol.len() - sc, ol.len() as int)
+            &&& nw.subrange(pc, nw.len() - sc) == deep(v_new_core(h, d, 0))
+        }),
+{
+    lemma_view_fuzz0(h, d);
+    let nw = deep(new_side(h, d));
+    let ol = deep(old_side(h, d));
+    let pc = h.prefix_context as int;
+    let sc = h.suffix_context as int;
+    let rem = h.remove.content@;
+    let add = h.add.content@;
+    assert forall|k: int| 0 <= k < pc implies nw.subrange(0, pc)[k] == ol.subrange(0, pc)[k] by {
+        assert(rem[k] == add[k]);
+    }
+    assert(nw.subrange(0, pc) =~= ol.subrange(0, pc));
+    assert forall|k: int| 0 <= k < sc implies
+        #[trigger] nw.subrange(nw.len() - sc, nw.len() as int)[k] == ol.subrange(ol.len() - sc, ol.len() as int)[k] by {
+        assert(rem[rem.len() - sc + k] == add[rem.len() - sc + k - rem.len() + add.len()]);
+    }
+    assert(nw.subrange(nw.len() - sc, nw.len() as int) =~= ol.subrange(ol.len() - sc, ol.len() as int));
+    assert(nw.subrange(pc, nw.len() - sc) =~= deep(v_new_core(h, d, 0)));
+}
+
+/// pure sequence fact: three consecutive pieces of y equal to the three pieces of w
+pub proof fn lemma_three_pieces<T>(y: Seq<T>, w: Seq<T>, q: int, a: int, b: int)
+    requires
+        0 <= a <= b <= w.len(), 0 <= q, q + w.len() <= y.len(),
+        y.subrange(q, q + a) == w.subrange(0, a),
+        y.subrange(q + a, q + b) == w.subrange(a, b),
+        y.subrange(q + b, q + w.len()) == w.subrange(b, w.len() as int),
+    ensures y.subrange(q, q + w.len()) == w
+{
+    assert(y.subrange(q, q + w.len()) =~= y.subrange(q, q + a) + y.subrange(q + a, q + b) + y.subrange(q + b, q + w.len()));
+    assert(w =~= w.subrange(0, a) + w.subrange(a, b) + w.subrange(b, w.len() as int));
+}
+
+/// leading context and new core of hunk i in the result
+pub proof fn lemma_new_view_front(x: Seq<Seq<u8>>, hs: Seq<Hunk<&[u8]>>, d: PatchDirection, i: int)
+    requires diff_script(x, hs, d), sizes_ok(x, hs), header_consistent(x, hs, d), 0 <= i < hs.len()
+    ensures
+        ({
+            let y = diff_result(x, hs, d);
+            let q = new_start(hs[i], d);
+            let pc = hs[i].prefix_context as int;
+            let sc = hs[i].suffix_context as int;
+            let nw = deep(new_side(hs[i], d));
+            &&& 0 <= q && pc + sc <= nw.len()
+            &&& q + nw.len() - sc == sp_out(x, hs, d, produced_reports(x, hs, d), i + 1).len()
+            &&& y.subrange(q, q + pc) == nw.subrange(0, pc)
+            &&& y.subrange(q + pc, q + nw.len() - sc) == nw.subrange(pc, nw.len() - sc)
+        }),
+{
+    let reps = produced_reports(x, hs, d);
+    let y = diff_result(x, hs, d);
+    let h = hs[i];
+    let q = new_start(h, d);
+    let p = old_start(h, d);
+    let pc = h.prefix_context as int;
+    let nw = deep(new_side(h, d));
+    let ol = deep(old_side(h, d));
+    lemma_diff_applied_state(x, hs, d);
+    lemma_produced_norm(x, hs, d, i);
+    lemma_applied_state_at(x, hs, d, reps, i);
+    lemma_new_start_at(x, hs, d, i);
+    lemma_diff_core_at(x, hs, d, i);
+    lemma_diff_script_at(x, hs, d, i);
+    lemma_hunk_contexts(h, d);
+    lemma_patched_segments(x, hs, d, reps, i);
+    let oi = sp_out(x, hs, d, reps, i).len() as int;
+    let pos = sp_pos(hs, d, reps, i);
+    let cs = p + pc;
+    let seg = y.subrange(oi, oi + (cs - pos));
+    assert(y.subrange(q, q + pc) =~= seg.subrange(q - oi, q - oi + pc));
+    assert(x.subrange(pos, cs).subrange(p - pos, p - pos + pc) =~= x.subrange(p, p + pc));
+    assert(x.subrange(p, p + ol.len()).subrange(0, pc) =~= x.subrange(p, p + pc));
+}
+
+/// the whole new side of hunk i (context included) stands in the result at its stated "+" line
+pub proof fn lemma_new_view_in_result(x: Seq<Seq<u8>>, hs: Seq<Hunk<&[u8]>>, d: PatchDirection, i: int)
+    requires diff_script(x, hs, d), sizes_ok(x, hs), header_consistent(x, hs, d), 0 <= i < hs.len()
+    ensures matches_at(deep(new_side(hs[i], d)), diff_result(x, hs, d), new_start(hs[i], d))
+{
+    let y = diff_result(x, hs, d);
+    let h = hs[i];
+    let q = new_start(h, d);
+    let p = old_start(h, d);
+    let pc = h.prefix_context as int;
+    let sc = h.suffix_context as int;
+    let nw = deep(new_side(h, d));
+    let ol = deep(old_side(h, d));
+    lemma_new_view_front(x, hs, d, i);
+    lemma_after_core(x, hs, d, i);
+    lemma_diff_script_at(x, hs, d, i);
+    lemma_hunk_contexts(h, d);
+    let ce = p + ol.len() - sc;
+    assert(x.subrange(p, p + ol.len()).subrange(ol.len() - sc, ol.len() as int) =~= x.subrange(ce, ce + sc));
+    lemma_three_pieces(y, nw, q, pc, nw.len() - sc);
+}
+
+/// right after the new core of hunk i the result continues with x's lines after the old core, at least for the
+/// trailing context of the hunk
+pub proof fn lemma_after_core(x: Seq<Seq<u8>>, hs: Seq<Hunk<&[u8]>>, d: PatchDirection, i: int)
+    requires diff_script(x, hs, d), sizes_ok(x, hs), header_consistent(x, hs, d), 0 <= i < hs.len()
+    ensures
+        ({
+            let reps = produced_reports(x, hs, d);
+            let y = diff_result(x, hs, d);
+            let o1 = sp_out(x, hs, d, reps, i + 1).len() as int;
+            let sc = hs[i].suffix_context as int;
+            let ce = old_start(hs[i], d) + old_side(hs[i], d).len() - sc;
+            &&& 0 <= o1 && o1 + sc <= y.len()
+            &&& 0 <= ce && ce + sc <= x.len()
+            &&& y.subrange(o1, o1 + sc) == x.subrange(ce, ce + sc)
+        }),
+{
+    let reps = produced_reports(x, hs, d);
+    let y = diff_result(x, hs, d);
+    let n = hs.len() as int;
+    let sc = hs[i].suffix_context as int;
+    lemma_diff_applied_state(x, hs, d);
+    lemma_diff_core_at(x, hs, d, i);
+    lemma_diff_script_at(x, hs, d, i);
+    lemma_produced_norm(x, hs, d, i);
+    lemma_view_fuzz0(hs[i], d);
+    lemma_applied_state_at(x, hs, d, reps, i);
+    lemma_patched_segments(x, hs, d, reps, i);
+    let o1 = sp_out(x, hs, d, reps, i + 1).len() as int;
+    let ce = old_start(hs[i], d) + old_side(hs[i], d).len() - sc;
+    assert(sp_pos(hs, d, reps, i + 1) == ce);
+    if i + 1 < n {
+        lemma_applied_state_at(x, hs, d, reps, i + 1);
+        lemma_produced_norm(x, hs, d, i + 1);
+        lemma_patched_segments(x, hs, d, reps, i + 1);
+        lemma_diff_core_at(x, hs, d, i + 1);
+        lemma_diff_script_at(x, hs, d, i + 1);
+        let cs1 = rep_core_start(hs[i + 1], reps[i + 1]);
+        assert(ce + sc <= old_start(hs[i + 1], d)) by { reveal(diff_script); let _ = hs[i]; }
+        assert(y.subrange(o1, o1 + (cs1 - ce)).subrange(0, sc) =~= y.subrange(o1, o1 + sc));
+        assert(x.subrange(ce, cs1).subrange(0, sc) =~= x.subrange(ce, ce + sc));
+    } else {
+        lemma_applied_pos(x, hs, d, reps, n);
+        let on = sp_out(x, hs, d, reps, n);
+        let tail = x.subrange(ce, x.len() as int);
+        assert(y == on + tail);
+        assert(y.subrange(o1, o1 + sc) =~= tail.subrange(0, sc));
+        assert(tail.subrange(0, sc) =~= x.subrange(ce, ce + sc));
+    }
+}
+
+/// mirrored end-of-file anchoring (context is symmetric between the two files of a diff): a hunk with less trailing
+/// than leading context also ends at the end of the NEW file
+pub open spec fn reverse_anchored(x: Seq<Seq<u8>>, hs: Seq<Hunk<&[u8]>>, d: PatchDirection) -> bool {
+    forall|i: int| 0 <= i < hs.len() && (#[trigger] hs[i]).prefix_context > hs[i].suffix_context ==>
+        new_start(hs[i], d) + new_side(hs[i], d).len() == diff_result(x, hs, d).len()
+}
+
+/// order of consecutive new views / changed regions in the result (the arithmetic mirror of S2, S3)
+pub proof fn lemma_reverse_pair(x: Seq<Seq<u8>>, hs: Seq<Hunk<&[u8]>>, d: PatchDirection, i: int)
+    requires diff_script(x, hs, d), sizes_ok(x, hs), header_consistent(x, hs, d), 0 <= i < hs.len() - 1
+    ensures
+        new_start(hs[i], d) + new_side(hs[i], d).len() <= new_start(hs[i + 1], d),
+        new_start(hs[i], d) + new_side(hs[i], d).len() - hs[i].suffix_context < new_start(hs[i + 1], d) + hs[i + 1].prefix_context,
+{
+    lemma_new_start_at(x, hs, d, i);
+    lemma_new_start_at(x, hs, d, i + 1);
+    reveal(diff_script);
+    let _ = hs[i];
+}
+
+/// the result of a diff is itself a diff script for the same hunks read in the opposite direction
+pub proof fn lemma_reverse_script(x: Seq<Seq<u8>>, hs: Seq<Hunk<&[u8]>>, d: PatchDirection)
+    requires diff_script(x, hs, d), sizes_ok(x, hs), header_consistent(x, hs, d), reverse_anchored(x, hs, d)
+    ensures diff_script(diff_result(x, hs, d), hs, opp(d))
+{
+    let y = diff_result(x, hs, d);
+    let e = opp(d);
+    assert(hunks_wf(hs)) by { reveal(diff_script); }
+    assert forall|i: int| 0 <= i < hs.len() implies matches_at(deep(old_side(#[trigger] hs[i], e)), y, old_start(hs[i], e)) by {
+        lemma_new_view_in_result(x, hs, d, i);
+    }
+    assert forall|i: int| 0 <= i < hs.len() - 1 implies
+        old_start(#[trigger] hs[i], e) + old_side(hs[i], e).len() <= old_start(hs[i + 1], e)
+        && old_start(hs[i], e) + old_side(hs[i], e).len() - hs[i].suffix_context < old_start(hs[i + 1], e) + hs[i + 1].prefix_context by {
+        lemma_reverse_pair(x, hs, d, i);
+    }
+    assert forall|i: int| 0 <= i < hs.len() && (#[trigger] hs[i]).prefix_context > hs[i].suffix_context implies
+        old_start(hs[i], e) + old_side(hs[i], e).len() == y.len() by {}
+    reveal(diff_script);
+}
+
+/// C01, statement level, both directions (modifications, line level): pushing the diff onto x applies every hunk at its
+/// stated line with offset 0 and fuzz 0 and yields y; pushing the same hunks with -R onto y applies every hunk at its
+/// stated "+" line with offset 0 and fuzz 0 and yields exactly x - for every fuzz limit, whatever reports the verified
+/// apply_modify produces.
+pub proof fn lemma_exact_round_trip(x: Seq<Seq<u8>>, hs: Seq<Hunk<&[u8]>>, d: PatchDirection, limit1: int, limit2: int,
+                                    r1: Seq<HunkApplyReport>, r2: Seq<HunkApplyReport>)
+    requires
+        diff_script(x, hs, d), sizes_ok(x, hs), header_consistent(x, hs, d), reverse_anchored(x, hs, d),
+        0 <= limit1, 0 <= limit2, r1.len() == hs.len(), r2.len() == hs.len(),
+        reports_normal(hs, d, limit1, x, false, r1, hs.len() as int),
+        reports_normal(hs, opp(d), limit2, splice_spec(x, hs, d, r1), false, r2, hs.len() as int),
+    ensures
+        !any_failed_spec(r1, hs.len() as int), !any_failed_spec(r2, hs.len() as int),
+        forall|i: int| 0 <= i < hs.len() ==> norm(#[trigger] r1[i]) == stated_report(hs[i], d),
+        forall|i: int| 0 <= i < hs.len() ==> norm(#[trigger] r2[i]) == stated_report(hs[i], opp(d)),
+        splice_spec(splice_spec(x, hs, d, r1), hs, opp(d), r2) == x,
+{
+    let n = hs.len() as int;
+    lemma_exact_diff(x, hs, d, limit1, r1);
+    // the forward content is the diff result
+    lemma_produced_len(x, hs, d);
+    let pr = produced_reports(x, hs, d);
+    assert forall|m: int| 0 <= m < n implies norm(#[trigger] r1[m]) == norm(pr[m]) by { lemma_produced_norm(x, hs, d, m); }
+    lemma_norm_state(x, hs, d, r1, pr, n);
+    let y = diff_result(x, hs, d);
+    assert(splice_spec(x, hs, d, r1) == y);
+    // backwards
+    lemma_reverse_script(x, hs, d);
+    lemma_exact_diff(y, hs, opp(d), limit2, r2);
+    lemma_round_trip_content(x, hs, d);
+    assert(stated_seq(hs, opp(d)) =~= Seq::new(hs.len(), |i: int| stated_report(hs[i], opp(d))));
+}
